@@ -1159,18 +1159,26 @@ void NifFile::TrimTexturePaths() {
 		if (tex.empty())
 			return tex;
 
-		// Replace multiple slashes or forward slashes with one backslash
-		tex = std::regex_replace(tex, std::regex("/+|\\\\+"), "\\");
+		// Replace any run of slashes and backslashes with one backslash
+		tex = std::regex_replace(tex, std::regex("[/\\\\]+"), "\\");
 
-		// Search for the first occurrence of "\textures\" (only if "textures\" isn't at the start)
+		// Remove all backslashes and whitespace from the front
+		const std::regex frontPattern("^[\\\\\\s]+");
+		tex = std::regex_replace(tex, frontPattern, "");
+
+		// The "Data\" prefix of terrain paths is added again below
+		if (isTerrain)
+			tex = std::regex_replace(tex, std::regex("^Data\\\\", std::regex_constants::icase), "");
+
+		// Remove everything in front of the textures folder (only if "textures\" isn't at the start)
 		std::smatch match;
-		std::regex pattern(R"(^(?!textures\\).*?\\textures\\)", std::regex_constants::icase);
-	
-		if (std::regex_search(tex, match, pattern))
+		std::regex pattern(R"(^(?!textures\\)[\s\S]*?\\textures\\)", std::regex_constants::icase);
+
+		while (std::regex_search(tex, match, pattern))
 			tex = tex.substr(match[0].length()); // Remove matched string
 
-		// Remove all backslashes from the front
-		tex = std::regex_replace(tex, std::regex("^\\\\+"), "");
+		// Remove all backslashes and whitespace that are now at the front
+		tex = std::regex_replace(tex, frontPattern, "");
 
 		if (!hdr.GetVersion().IsOB() && !hdr.GetVersion().IsSpecial() && is_relative_path(tex)) {
 			// If the path doesn't start with "textures\", add it to the front
@@ -1179,10 +1187,9 @@ void NifFile::TrimTexturePaths() {
 									 "textures\\");
 		}
 
-		// If the path doesn't start with "Data\", add it to the front
-		if (isTerrain && is_relative_path(tex)) {
-			tex = std::regex_replace(tex, std::regex("^(?!^Data\\\\)", std::regex_constants::icase), "Data\\");
-		}
+		// Add the "Data\" prefix (an existing one was removed above) to the front
+		if (isTerrain && is_relative_path(tex))
+			tex = "Data\\" + tex;
 		return tex;
 	};
 
@@ -1205,24 +1212,24 @@ void NifFile::TrimTexturePaths() {
 					std::string tex = i.get();
 					i.get() = fTrimPath(tex);
 				}
+			}
 
-				auto effectShader = dynamic_cast<BSEffectShaderProperty*>(shader);
-				if (effectShader) {
-					std::string tex = effectShader->sourceTexture.get();
-					effectShader->sourceTexture.get() = fTrimPath(tex);
+			auto effectShader = dynamic_cast<BSEffectShaderProperty*>(shader);
+			if (effectShader) {
+				std::string tex = effectShader->sourceTexture.get();
+				effectShader->sourceTexture.get() = fTrimPath(tex);
 
-					tex = effectShader->normalTexture.get();
-					effectShader->normalTexture.get() = fTrimPath(tex);
+				tex = effectShader->normalTexture.get();
+				effectShader->normalTexture.get() = fTrimPath(tex);
 
-					tex = effectShader->greyscaleTexture.get();
-					effectShader->greyscaleTexture.get() = fTrimPath(tex);
+				tex = effectShader->greyscaleTexture.get();
+				effectShader->greyscaleTexture.get() = fTrimPath(tex);
 
-					tex = effectShader->envMapTexture.get();
-					effectShader->envMapTexture.get() = fTrimPath(tex);
+				tex = effectShader->envMapTexture.get();
+				effectShader->envMapTexture.get() = fTrimPath(tex);
 
-					tex = effectShader->envMaskTexture.get();
-					effectShader->envMaskTexture.get() = fTrimPath(tex);
-				}
+				tex = effectShader->envMaskTexture.get();
+				effectShader->envMaskTexture.get() = fTrimPath(tex);
 			}
 		}
 
